@@ -1,0 +1,88 @@
+//go:build verif
+
+package opcua
+
+import (
+	"fmt"
+	"reflect"
+	"sort"
+	"strings"
+)
+
+// VerifConfigSnapshot renders every field reachable from a client
+// configuration (dialer, secure channel config, session config) as text,
+// following pointers so that two configurations compare equal exactly when
+// they hold the same settings. Functions and channels are rendered as
+// set/unset. Verification builds only.
+func VerifConfigSnapshot(cfg *Config) string {
+	var b strings.Builder
+	verifDump(&b, "dialer", reflect.ValueOf(cfg.dialer), 0)
+	verifDump(&b, "sechan", reflect.ValueOf(cfg.sechan), 0)
+	verifDump(&b, "session", reflect.ValueOf(cfg.session), 0)
+	verifDump(&b, "stateCh", reflect.ValueOf(cfg.stateCh), 0)
+	verifDump(&b, "stateFunc", reflect.ValueOf(cfg.stateFunc), 0)
+	return b.String()
+}
+
+// VerifClientConfig returns the configuration of a client.
+func VerifClientConfig(c *Client) *Config { return c.cfg }
+
+func verifDump(b *strings.Builder, path string, v reflect.Value, depth int) {
+	if depth > 12 {
+		fmt.Fprintf(b, "%s = <depth>\n", path)
+		return
+	}
+	if !v.IsValid() {
+		fmt.Fprintf(b, "%s = <invalid>\n", path)
+		return
+	}
+	switch v.Kind() {
+	case reflect.Ptr, reflect.Interface:
+		if v.IsNil() {
+			fmt.Fprintf(b, "%s = nil\n", path)
+			return
+		}
+		if v.Kind() == reflect.Interface {
+			path += "(" + v.Elem().Type().String() + ")"
+		}
+		verifDump(b, path, v.Elem(), depth+1)
+	case reflect.Struct:
+		if v.Type().String() == "big.Int" {
+			// math/big values are rendered through their bits
+			fmt.Fprintf(b, "%s = big:%v\n", path, v.FieldByName("abs"))
+			return
+		}
+		for i := 0; i < v.NumField(); i++ {
+			verifDump(b, path+"."+v.Type().Field(i).Name, v.Field(i), depth+1)
+		}
+	case reflect.Slice, reflect.Array:
+		if v.Kind() == reflect.Slice && v.IsNil() {
+			fmt.Fprintf(b, "%s = nil\n", path)
+			return
+		}
+		if v.Type().Elem().Kind() == reflect.Uint8 {
+			fmt.Fprintf(b, "%s = %x\n", path, v)
+			return
+		}
+		fmt.Fprintf(b, "%s.len = %d\n", path, v.Len())
+		for i := 0; i < v.Len(); i++ {
+			verifDump(b, fmt.Sprintf("%s[%d]", path, i), v.Index(i), depth+1)
+		}
+	case reflect.Map:
+		keys := make([]string, 0, v.Len())
+		vals := map[string]reflect.Value{}
+		for _, k := range v.MapKeys() {
+			s := fmt.Sprint(k)
+			keys = append(keys, s)
+			vals[s] = v.MapIndex(k)
+		}
+		sort.Strings(keys)
+		for _, k := range keys {
+			verifDump(b, path+"["+k+"]", vals[k], depth+1)
+		}
+	case reflect.Func, reflect.Chan, reflect.UnsafePointer:
+		fmt.Fprintf(b, "%s = set:%v\n", path, !v.IsNil())
+	default:
+		fmt.Fprintf(b, "%s = %v\n", path, v)
+	}
+}
